@@ -457,6 +457,10 @@ fn t_bytes(win: bool, s: &[u8], a: &[u8]) -> Vec<String> {
             t.push(wq_partial_bytes(&s));
             extras_bytes!(t, p, WindowsPathBuf::from(s.as_slice()));
             t.push(format!("x.with_capacity {}", { let mut b = WindowsPathBuf::with_capacity(9); b.push(p); hex(b.as_bytes()) }));
+            t.push(format!("x.try_from comp={:?} prefix={:?} prefix-comp={:?}",
+                WindowsComponent::try_from(s.as_slice()).ok().map(|c| comp_line_w(&c)),
+                WindowsPrefix::try_from(s.as_slice()).ok().map(|k| format!("{:?}", kind_of(&k))),
+                typed_path::WindowsPrefixComponent::try_from(s.as_slice()).ok().map(|x| (format!("{:?}", kind_of(&x.kind())), hex(x.as_bytes())))));
         } else {
             transcript_path!(t, UnixPath::new(&s), a.as_slice(), win);
             transcript_buf!(t, UnixPathBuf::from(s.as_slice()), a.as_slice(), win);
@@ -472,6 +476,7 @@ fn t_bytes(win: bool, s: &[u8], a: &[u8]) -> Vec<String> {
             t.push(format!("to-windows {} {:?}", hex(p.with_windows_encoding().as_bytes()), p.with_windows_encoding_checked().map(|x| hex(x.as_bytes()))));
             extras_bytes!(t, p, UnixPathBuf::from(s.as_slice()));
             t.push(format!("x.with_capacity {}", { let mut b = UnixPathBuf::with_capacity(9); b.push(p); hex(b.as_bytes()) }));
+            t.push(format!("x.try_from comp={:?}", UnixComponent::try_from(s.as_slice()).ok().map(|c| comp_line_u(&c))));
         }
         t
     })
@@ -500,6 +505,10 @@ fn t_utf8(win: bool, s: &str, a: &str) -> Vec<String> {
             t.push(wq_partial_utf8(&s));
             extras_utf8!(t, p, Utf8WindowsPathBuf::from(s.as_str()));
             t.push(format!("x.with_capacity {}", { let mut b = Utf8WindowsPathBuf::with_capacity(9); b.push(p); hex(b.as_str().as_bytes()) }));
+            t.push(format!("x.try_from comp={:?} prefix={:?} prefix-comp={:?}",
+                Utf8WindowsComponent::try_from(s.as_str()).ok().map(|c| comp_line_w8(&c)),
+                Utf8WindowsPrefix::try_from(s.as_str()).ok().map(|k| format!("{:?}", kind_of8(&k))),
+                typed_path::Utf8WindowsPrefixComponent::try_from(s.as_str()).ok().map(|x| (format!("{:?}", kind_of8(&x.kind())), hex(x.as_str().as_bytes())))));
         } else {
             transcript_path!(t, Utf8UnixPath::new(&s), a.as_str(), win);
             transcript_buf!(t, Utf8UnixPathBuf::from(s.as_str()), a.as_str(), win);
@@ -515,6 +524,7 @@ fn t_utf8(win: bool, s: &str, a: &str) -> Vec<String> {
             t.push(format!("to-windows {} {:?}", hex(&p.with_windows_encoding().tob()), p.with_windows_encoding_checked().map(|x| hex(&x.tob()))));
             extras_utf8!(t, p, Utf8UnixPathBuf::from(s.as_str()));
             t.push(format!("x.with_capacity {}", { let mut b = Utf8UnixPathBuf::with_capacity(9); b.push(p); hex(b.as_str().as_bytes()) }));
+            t.push(format!("x.try_from comp={:?}", Utf8UnixComponent::try_from(s.as_str()).ok().map(|c| comp_line_u8(&c))));
         }
         t
     })
@@ -953,6 +963,35 @@ pub fn c15(ctx: &mut Ctx, tier: &str, seed: u64) {
                 }
             }
         }
+        // the `From` constructors of the typed types ARE `derive`; `try_as_ref` hands out the wrapped
+        // path for the right variant only
+        {
+            ctx.evals += 1;
+            let same = |a: &TypedPath, b: &TypedPath| a.is_windows() == b.is_windows() && a.as_bytes() == b.as_bytes();
+            let mut ok = same(&TypedPath::from(s.as_slice()), &d)
+                && same(&TypedPathBuf::from(s.as_slice()).to_path(), &d)
+                && same(&TypedPathBuf::from(s.clone()).to_path(), &d);
+            if let Ok(a2) = <&[u8; 2]>::try_from(s.as_slice()) {
+                ok = ok && same(&TypedPathBuf::from(a2).to_path(), &d);
+            }
+            if let Ok(st) = std::str::from_utf8(s) {
+                ok = ok && same(&TypedPath::from(st), &d) && same(&TypedPathBuf::from(st).to_path(), &d) && same(&TypedPathBuf::from(st.to_string()).to_path(), &d);
+                let d8 = Utf8TypedPath::derive(st);
+                let same8 = |a: &Utf8TypedPath, b: &Utf8TypedPath| a.is_windows() == b.is_windows() && a.as_str() == b.as_str();
+                ok = ok && same8(&Utf8TypedPath::from(st), &d8) && same8(&Utf8TypedPathBuf::from(st).to_path(), &d8) && same8(&Utf8TypedPathBuf::from(st.to_string()).to_path(), &d8);
+                let (tu, tw) = (Utf8TypedPath::unix(st), Utf8TypedPath::windows(st));
+                let (a, b): (Option<&Utf8UnixPath>, Option<&Utf8WindowsPath>) = (tu.try_as_ref(), tu.try_as_ref());
+                let (c, e): (Option<&Utf8UnixPath>, Option<&Utf8WindowsPath>) = (tw.try_as_ref(), tw.try_as_ref());
+                ok = ok && a.map(|x| x.as_str()) == Some(st) && b.is_none() && c.is_none() && e.map(|x| x.as_str()) == Some(st);
+            }
+            let (tu, tw) = (TypedPath::unix(s), TypedPath::windows(s));
+            let (a, b): (Option<&UnixPath>, Option<&WindowsPath>) = (tu.try_as_ref(), tu.try_as_ref());
+            let (c, e): (Option<&UnixPath>, Option<&WindowsPath>) = (tw.try_as_ref(), tw.try_as_ref());
+            ok = ok && a.map(|x| x.as_bytes()) == Some(s.as_slice()) && b.is_none() && c.is_none() && e.map(|x| x.as_bytes()) == Some(s.as_slice());
+            if !ok {
+                ctx.fail("typed-from-is-derive", None, format!("derive {}", hex(s)), String::new());
+            }
+        }
         // From / TryFrom round trips keep bytes and variant
         for win in [false, true] {
             let tb = if win { TypedPathBuf::from_windows(s) } else { TypedPathBuf::from_unix(s) };
@@ -1090,6 +1129,39 @@ pub fn c19(ctx: &mut Ctx, tier: &str, _seed: u64) {
             if want != got || want8 != got8 {
                 ctx.fail("utils-equal-std-env", None, format!("tx bytes u {} {}", hex(b"."), hex(b"")), format!("{}: std {:?} typed-path {:?} utf8 {:?}", name, want.as_ref().map(|v| lossy(v)), got.as_ref().map(|v| lossy(v)), got8.as_ref().map(|v| lossy(v))));
             }
+        }
+    }
+    {
+        use std::borrow::Borrow;
+        ctx.evals += 1;
+        let e1 = UnixPathBuf::default().into_vec().is_empty() && WindowsPathBuf::default().into_vec().is_empty()
+            && Utf8UnixPathBuf::default().into_string().is_empty() && Utf8WindowsPathBuf::default().into_string().is_empty();
+        let mut ok = e1;
+        for s in dom.iter().take(400) {
+            let b = UnixPathBuf::from(s.as_slice());
+            let r: &UnixPath = b.borrow();
+            let w = WindowsPathBuf::from(s.as_slice());
+            let rw: &WindowsPath = w.borrow();
+            ok = ok && r.as_bytes() == s.as_slice() && rw.as_bytes() == s.as_slice();
+            #[cfg(all(feature = "std", unix))]
+            {
+                use std::ffi::{OsStr, OsString};
+                use std::os::unix::ffi::OsStrExt;
+                let os = OsStr::from_bytes(s);
+                let osb: OsString = os.to_os_string();
+                let valid = std::str::from_utf8(s).is_ok();
+                let a: Option<&Utf8UnixPath> = os.try_as_ref();
+                let b2: Option<&Utf8WindowsPath> = osb.try_as_ref();
+                ok = ok && a.map(|x| x.as_str().as_bytes()) == (if valid { Some(s.as_slice()) } else { None })
+                    && b2.map(|x| x.as_str().as_bytes()) == (if valid { Some(s.as_slice()) } else { None });
+                if let Ok(st) = std::str::from_utf8(s) {
+                    let o: &OsStr = Utf8UnixPath::new(st).as_ref();
+                    ok = ok && o.as_bytes() == s.as_slice();
+                }
+            }
+        }
+        if !ok {
+            ctx.fail("default-borrow-osstr", None, format!("tx bytes u {} {}", hex(b"."), hex(b"")), String::new());
         }
     }
     macro_rules! chains {
